@@ -35,8 +35,8 @@ func c05Configs(thorough bool) []modelCfg {
 		pats = append(pats, "flat")
 	}
 	type mdl struct {
-		name     string
-		nm, sel  bool
+		name    string
+		nm, sel bool
 	}
 	mdls := []mdl{
 		{"ExecuteMixModel", false, false}, {"ExecuteInverseMixModel", false, false},
@@ -123,8 +123,14 @@ func init() {
 		Kind:        "schedules",
 		Rule: "models {mix, inverse-mix, N-sort-M-conc, N-conc-M-sort, N-conc-M-conc and their selected twins} x 1..4(5) rules x salience patterns {descending, ascending incl. negative, tied pairs, (all tied)} x failing subsets of size <=1(2) x (N,M) in {1,2}^2 x both policy values; " +
 			"every schedule up to the preemption bound (quick 2, thorough 3) on the real engine; oracle = staged reference plan (barrier, exactly-once, sorted order, stop policy, error iff failure), any order among equal saliences accepted",
-		Assume:  []string{"injected observer functions terminate", "sequentially consistent memory (races are C19's subject)"},
-		Run:     func(c *hx.Ctx) { b := 2; if c.Thorough() { b = 3 }; runModelConfigs(c, "C05", c05Configs(c.Thorough()), envBound(b)) },
+		Assume: []string{"injected observer functions terminate", "sequentially consistent memory (races are C19's subject)"},
+		Run: func(c *hx.Ctx) {
+			b := 2
+			if c.Thorough() {
+				b = 3
+			}
+			runModelConfigs(c, "C05", c05Configs(c.Thorough()), envBound(b))
+		},
 		Rebuild: rebuildModel,
 	})
 }
